@@ -282,6 +282,12 @@ def mon_c14(c):
         return 'iter_rev order %s is not a reverse dependency order' % o
     if parse_list(c.obs.get('TN', '-'), ' ') != list(range(n)):
         return 'iter_insertion order wrong'
+    if 'TNM' in c.obs and parse_list(c.obs['TNM'], ' ') != list(range(n)):
+        return 'iter_insertion_mut order wrong: %s' % c.obs['TNM']
+    if 'TNI' in c.obs:
+        want = ' '.join('%d:%d' % (i, i) for i in range(n)) or '-'
+        if c.obs['TNI'].strip() != want:
+            return 'iter_insertion_with_indices yields %s' % c.obs['TNI']
     tm = parse_list(c.obs.get('TM', '-'), ' ')
     for tag in ('TF', 'TE'):
         s = c.obs.get(tag, '-')
